@@ -939,8 +939,18 @@ func init() {
 	crashRule := "sessions of 8-20 steps (Put incl. incompressible and rejected values, Delete, forced rotation with flush, synchronous compaction cycles with a size limit that excludes big tables, optional clean Close) run in a child process under strace with small table write buffers; EVERY boundary between two file-system-mutating system calls (write, create, rename, unlink, mkdir, truncate) of any thread yields a directory image (deduplicated), on which the real Open runs in a fresh process (panic/hang/exit are outcomes) and every key is read. Every second image is in addition recovered by a process that is killed while idle and then opened once more (same content required); with the asynchronous log, images whose newest log file holds records get that file cut at byte lengths through its last record header."
 	register(&Prop{ID: "C02", Num: 2, Gen: genC02, New: func() Case { return &c02Case{} },
 		Rule: crashRule + " Oracle: Open succeeds and the state equals the acknowledged operations, the one in flight optional. Non-trivial: >=1 rotation/compaction and >10 images."})
-	register(&Prop{ID: "C13", Num: 13, Gen: genC13, New: func() Case { return &c02Case{} },
-		Rule: crashRule + " Asynchronous WAL; one session logs more than the 4 MiB WAL buffer. Oracle: Open succeeds and the state is that after some prefix of the acknowledged sequence covering everything before the last completed rotation."})
+	register(&Prop{ID: "C13", Num: 13, New: func() Case { return &c13Any{} },
+		Gen: func(r *rand.Rand, tier string) []Case {
+			var out []Case
+			for _, c := range genC13(r, tier) {
+				out = append(out, &c13Any{Crash: c.(*c02Case)})
+			}
+			for _, c := range genC13Buf(r, tier) {
+				out = append(out, &c13Any{Buf: c.(*c13Buf)})
+			}
+			return out
+		},
+		Rule: "programs of 1-15 Write / Flush / Seek / Close calls on the buffered writer (recordio.NewWriterBuf, buffer sizes {0,1,2,3,4,7,8,16,64,4096}, payload lengths around the buffer size, twice the buffer size and what is left of it) over a file that records what it is handed, call by call - compared with the model and judged by a prefix oracle; and " + crashRule + " Asynchronous WAL; one session logs more than the 4 MiB WAL buffer. Oracle: Open succeeds and the state is that after some prefix of the acknowledged sequence covering everything before the last completed rotation."})
 	register(&Prop{ID: "C10", Num: 10, Gen: genC10, New: func() Case { return &c02Case{} },
 		Rule: crashRule + " On a sample of the distinct images the recovery itself runs under strace and is cut at every one of its boundaries (depth two); Open on each cut image must succeed and read exactly what the uninterrupted recovery reads."})
 }
